@@ -279,7 +279,7 @@ func checkC08(c *Ctx) {
 	c.Check(sortedPairs, "R08.4", "name pairs emitted sorted", "", "reflectMainPostPatch iterates slices.Sorted(maps.Keys(...))", "the run-time name table is emitted in map order")
 
 	// R08.5 (repo side) -----------------------------------------------------
-	c.Rule("R08.5", "injection chain: anchor text, linkname names and table variable agree", 5)
+	c.Rule("R08.5", "injection chain: anchor text, linkname names and table variable agree", 4)
 	anp := w.Fn("abiNamePatch")
 	if anp == nil {
 		c.Undecided("R08.5", "abiNamePatch", "", "function not found")
